@@ -1594,6 +1594,10 @@ static RegAnalysis InstInternal_reg_analysis(const Operand_* operands, size_t op
     }
     else if (op.is_mem()) {
       const BaseMem& mem = op.as<BaseMem>();
+      // A 512-bit memory operand selects the 512-bit (EVEX-only) form just like a ZMM register does.
+      if (op.x86_rm_size() == 64) {
+        mask |= Support::bit_mask<uint32_t>(RegType::kVec512);
+      }
       if (mem.has_base_reg()) {
         mask |= Support::bit_mask<uint32_t>(mem.base_type());
       }
